@@ -116,7 +116,7 @@ static inline int ring_getc(struct ring_head *r, const char *buffer)
 {
     if (ring_empty(r))
         return -1;
-    char c = *(buffer + r->tail);
+    unsigned char c = (unsigned char)*(buffer + r->tail);
     ring_move_tail_one(r);
     return c;
 }
@@ -133,7 +133,7 @@ static inline int ring_read(struct ring_head *r,
         c = ring_getc(r, buffer);
         if (c == -1)
             return ret;
-        *data++ = c;
+        *data++ = (char)c;
         ret++;
     }
     return ret;
